@@ -294,7 +294,7 @@ func cmdCheck(args []string) int {
 			}
 		}
 	}
-	results := dischargeAll(obs, workdir, tlim, 8, *solver)
+	results := dischargeAll(obs, workdir, tlim, 6, *solver)
 	discharged := 0
 	bySolver := map[string]int{}
 	var failed []Result
